@@ -42,7 +42,7 @@ def shards(tier, seed):
     return out
 
 
-HISTS = ('copy_resized64', 'copy_resized', 'view_resized', 'resized_back', 'used')
+HISTS = ('copy_resized64', 'copy_resized', 'view_resized', 'resized_back', 'used', 'resigned_setitem', 'resigned_dtype_setitem')
 
 
 def relation(rounding, c, num, s):
@@ -88,16 +88,32 @@ def judge(acc, fmt, rounding, overflow, ds, part, mono, carrier='farr'):
         if not ds:
             return
         vals = np.array([d[0] if t.kind in 'iu' else dy_float(d) for d in ds], dtype=t)
-    elif carrier.startswith('fxp:'):
-        # the value arrives as another Fxp with two more fraction bits (holds every quarter-LSB input exactly)
-        sf = Fmt(True, 62 - max(0, fmt.n_frac + 2), fmt.n_frac + 2) if fmt.n_frac + 2 <= 40 else None
+    elif carrier.startswith('fxp'):
+        # the value arrives as another Fxp with k more fraction bits: k = 2 holds every quarter-LSB input exactly; for larger k
+        # ('fxp+k:route') every input also comes with its two neighbours on the source grid (all bits below the destination LSB but
+        # the last are zero: a rounding that forgets the low bits - no sticky bit - gets these wrong)
+        k = int(carrier[4:carrier.index(':')]) if carrier.startswith('fxp+') else 2
+        sf = Fmt(True, 62 - max(0, fmt.n_frac + k), fmt.n_frac + k) if fmt.n_frac + k <= 40 else None
         if sf is None:
             return
-        ds = [d for d in ds if d[1] <= max(sf.n_frac, 0) and abs(scaled(d, sf.n_frac)[0]) < (1 << 50) and scaled(d, sf.n_frac)[1] == 0]
+        if k > 2:
+            ext = []
+            for d in ds:
+                if 0 <= d[1] <= sf.n_frac:
+                    num = d[0] << (sf.n_frac - d[1])                 # the input on the source grid
+                    ext += [(num - 1, sf.n_frac), (num, sf.n_frac), (num + 1, sf.n_frac)]
+            ds = sorted(set(ext), key=lambda t: t[0])
+            carrier_how = carrier[carrier.index(':') + 1:]
+        if k > 2:
+            ds = [d for d in ds if abs(d[0]) < (1 << 50)]
+        else:
+            ds = [d for d in ds if d[1] <= max(sf.n_frac, 0) and abs(scaled(d, sf.n_frac)[0]) < (1 << 50) and scaled(d, sf.n_frac)[1] == 0]
         if not ds:
             return
         vals = None
     elif carrier in ('farr', 'setitem') or carrier.startswith('hist:'):
+        if carrier.startswith('hist:resigned') and len(ds) > 48:
+            ds = ds[:: len(ds) // 48 + 1] + [ds[-1]]          # written element by element: a sorted subsequence
         vals = np.array([dy_float(d) for d in ds], dtype=np.float64)
     else:
         ds = [d for d in ds if d[1] == 0]
@@ -109,9 +125,9 @@ def judge(acc, fmt, rounding, overflow, ds, part, mono, carrier='farr'):
     acc.transitions += 1
     acc.dim('carrier', carrier, len(ds))
     try:
-        if carrier.startswith('fxp:'):
-            src = Fxp(np.array([scaled(d, sf.n_frac)[0] for d in ds], dtype=np.int64), sf.signed, sf.n_word, sf.n_frac, raw=True)
-            how = carrier[4:]
+        if carrier.startswith('fxp'):
+            src = Fxp(np.array([(d[0] if d[1] == sf.n_frac and k > 2 else scaled(d, sf.n_frac)[0]) for d in ds], dtype=np.int64), sf.signed, sf.n_word, sf.n_frac, raw=True)
+            how = carrier[carrier.index(':') + 1:]
             if how == 'equal':
                 x = mk(np.zeros(len(ds)), fmt, rounding, overflow)
                 x.equal(src)
@@ -120,6 +136,9 @@ def judge(acc, fmt, rounding, overflow, ds, part, mono, carrier='farr'):
                 x.set_val(src)
             elif how == 'like()':
                 x = src.like(mk(np.zeros(len(ds)), fmt, rounding, overflow))
+            elif how == 'setitem':
+                x = mk(np.zeros(len(ds)), fmt, rounding, overflow)
+                x[:] = src
             else:
                 x = Fxp(src, fmt.signed, fmt.n_word, fmt.n_frac, rounding=rounding, overflow=overflow)
             got, fl = codes(x), flags(x)
@@ -150,7 +169,17 @@ def judge(acc, fmt, rounding, overflow, ds, part, mono, carrier='farr'):
                 x.resize(n_word=fmt.n_word)
             elif how == 'used':
                 warm(x)
-            x.set_val(vals) if how != 'used' else x(vals)
+            if how.startswith('resigned'):
+                # born with the OTHER signedness, re-signed by resize (by keyword / by dtype string), then written element by element
+                x = mk(np.zeros(len(ds)), Fmt(not fmt.signed, fmt.n_word, fmt.n_frac), rounding, overflow)
+                if how == 'resigned_setitem':
+                    x.resize(signed=fmt.signed)
+                else:
+                    x.resize(dtype=fmt.dtype)
+                for i in range(len(ds)):
+                    x[i] = vals[i]
+            else:
+                x.set_val(vals) if how != 'used' else x(vals)
             got, fl = codes(x), flags(x)
             acc.transitions += 3
         elif carrier == 'int':
@@ -277,6 +306,9 @@ def run_shard(sh):
                 if nw <= 4:
                     for h in HISTS:
                         judge(acc, fmt, r, 'saturate', ds, 'S', True, 'hist:' + h)
+                if nw <= 4:
+                    for cr in ('fxp+3:ctor', 'fxp+5:equal', 'fxp+9:set_val', 'fxp+12:like()', 'fxp+20:ctor', 'fxp+11:setitem'):
+                        judge(acc, fmt, r, 'saturate', ds, 'S', True, cr)
                 if nw <= 5:
                     for cr in ('np:float32', 'np:float16', 'np:int8', 'np:int16', 'np:int32', 'np:uint8', 'np:uint16',
                                'fxp:equal', 'fxp:set_val', 'fxp:ctor', 'fxp:like()'):
